@@ -118,6 +118,10 @@ type fsEntry struct {
 	inode     *fsInode // nil for directories
 	opEnd     float64
 	durableAt float64
+	// concurrent: a directory made while two or more uploads were in flight
+	// (another uploader may find it and skip the fsync of its parent)
+	concurrent bool
+	opStart    float64
 }
 
 type fsUpload struct {
@@ -146,7 +150,7 @@ func checkTrace(events []sysEvent, root, markers string) *traceReport {
 	}
 	root = filepath.Clean(root)
 	inRoot := func(p string) bool { return p == root || strings.HasPrefix(p, root+"/") }
-	names := map[string]*fsInode{}          // path -> inode (files)
+	names := map[string]*fsInode{}           // path -> inode (files)
 	dirs := map[string]map[string]*fsEntry{} // dir -> name -> entry
 	entry := func(p string) *fsEntry {
 		d := dirs[filepath.Dir(p)]
@@ -163,6 +167,7 @@ func checkTrace(events []sysEvent, root, markers string) *traceReport {
 		dirs[d][filepath.Base(p)] = e
 	}
 	byKey := map[string][]*fsUpload{}
+	inFlight := 0
 	isTemp := func(p string) bool { return strings.HasPrefix(filepath.Base(p), ".") }
 	for _, ev := range events {
 		if ev.ret < 0 {
@@ -193,12 +198,14 @@ func checkTrace(events []sysEvent, root, markers string) *traceReport {
 						u := &fsUpload{id: id, key: fs[3], sha: fs[4], imm: fs[5] == "true", size: sz, begin: ev.start}
 						rep.Uploads[id] = u
 						byKey[u.key] = append(byKey[u.key], u)
+						inFlight++
 					}
 				case "END":
 					u := rep.Uploads[id]
 					if u == nil {
 						continue
 					}
+					inFlight--
 					u.end, u.ok = ev.start, len(fs) >= 4 && fs[3] == "ok"
 					if !u.ok {
 						continue
@@ -219,7 +226,11 @@ func checkTrace(events []sysEvent, root, markers string) *traceReport {
 							if q != p {
 								what = "entry of directory " + strings.TrimPrefix(q, root+"/")
 							}
-							add("entry-not-durable-at-return", "upload %d of %s returned at %.6f but the %s was not yet covered by an fsync of its parent directory", id, u.key, u.end, what)
+							class := "entry-not-durable-at-return"
+							if q != p && (e.concurrent || e.opStart < u.begin) {
+								class += ":concurrent-mkdir"
+							}
+							add(class, "upload %d of %s returned at %.6f but the %s was not yet covered by an fsync of its parent directory", id, u.key, u.end, what)
 						}
 					}
 					if e := entry(p); e != nil && e.inode != nil {
@@ -278,7 +289,7 @@ func checkTrace(events []sysEvent, root, markers string) *traceReport {
 			p := filepath.Clean(qs[0][1])
 			if inRoot(p) {
 				rep.Mkdirs++
-				setEntry(p, &fsEntry{opEnd: ev.end, durableAt: math.Inf(1)})
+				setEntry(p, &fsEntry{opStart: ev.start, opEnd: ev.end, durableAt: math.Inf(1), concurrent: inFlight >= 2})
 			}
 		case "renameat", "renameat2", "rename":
 			if len(qs) < 2 {
